@@ -153,7 +153,7 @@ def offset_writers(cx):
         cx.check(k in kinds, "idiom:" + k, "the %s write of Unstable.offset exists" % k)
 
 
-@obligation("LOGGUARD.unstable_first", ["C14"], floor=3, kind="return shape",
+@obligation("LOGGUARD.unstable_first", ["C14", "C03"], floor=3, kind="return shape",
             why="the unstable part (and pending snapshot) shadows stable storage; asking the store first returns stale terms/indexes")
 def unstable_first(cx):
     for name, um, sm in (("RaftLog::first_index", "Unstable::maybe_first_index", "first_index"), ("RaftLog::last_index", "Unstable::maybe_last_index", "last_index"), ("RaftLog::term", "Unstable::maybe_term", "term")):
